@@ -177,7 +177,14 @@ Fixpoint req_entries (t : rtable) (l : list colreq) : sres rdata :=
 Fixpoint put_all (l : rdata) (d : rdata) : rdata :=
   match l with [] => d | (k, e) :: r => put_all r (aset N.eqb k e d) end.
 
-Definition rsel_cols (t : rtable) (reqs : list colreq) : sres rtable :=
+(* _ColView.__getitem__ lists a column requested twice once (dict.fromkeys: first occurrence kept) *)
+Fixpoint dedup_reqs (l : list colreq) : list colreq :=
+  match l with
+  | [] => []
+  | r :: t => r :: filter (fun q => negb (N.eqb (req_name q) (req_name r))) (dedup_reqs t)
+  end.
+
+Definition rsel_cols0 (t : rtable) (reqs : list colreq) : sres rtable :=
   (* _ColView.__getitem__ puts the index first when it is not requested *)
   let reqs := if memN (r_index t) (map req_name reqs) then reqs else CName (r_index t) :: reqs in
   (* the entries are written last to first, so that with a repeated key the
@@ -186,6 +193,9 @@ Definition rsel_cols (t : rtable) (reqs : list colreq) : sres rtable :=
      is that of a set) *)
   sbind (req_entries t reqs) (fun es =>
   Ok (mkRT (put_all (rev (scalars t)) (put_all (rev es) [])) (map req_name reqs) (r_index t))).
+
+(* cols[...] with the string form 'a b a' or a list: repeated names first dropped *)
+Definition rsel_cols (t : rtable) (reqs : list colreq) : sres rtable := rsel_cols0 t (dedup_reqs reqs).
 
 (* table[key] = val *)
 Inductive aval := VArr (l : list Z) | VScalar (z : Z).
@@ -305,7 +315,7 @@ Definition reqs_okb (t : rtable) (l : list colreq) : bool :=
 (* ... and the index column is not deleted *)
 Fixpoint rop_okb (t : rtable) (o : rop) : bool :=
   match o with
-  | OCols l => reqs_okb t l
+  | OCols l => reqs_okb t (dedup_reqs l)      (* after the repeated names are dropped *)
   | ODel key => negb (N.eqb key (r_index t))
   | OStay o' => rop_okb t o'
   | _ => true
